@@ -1,6 +1,7 @@
 #!/bin/sh
 # Sensitivity proof: apply each mutant of selftest/mutants (and of
-# /verif/seeded/*/patch.diff) to a scratch worktree OUTSIDE /repo and /verif,
+# /verif/seeded/*/patch.diff, and the behaviour-preserving changes of
+# selftest/benign, on which every check must stay quiet) to a scratch worktree OUTSIDE /repo and /verif,
 # build the simulator against it once, run every check's quick tier there, and
 # compare with the properties the mutant is meant to break. Writes
 # selftest/sensitivity_matrix.txt. Usage: selftest/sensitivity.sh [pattern] [jobs]
@@ -18,7 +19,7 @@ one() {
         echo "$name APPLY-FAILED" > "$WORK/res-$name"
     else
         mkdir -p "$scr/sim" "$scr/root/evidence" "$scr/root/replays"
-        cp -r "$HERE/sim/src" "$HERE/sim/.cargo" "$scr/sim/"
+        cp -r "$HERE/sim/src" "$HERE/sim/.cargo" "$HERE/sim/build.rs" "$scr/sim/"
         sed "s#path = \"/repo\"#path = \"$wt\"#" "$HERE/sim/Cargo.toml" > "$scr/sim/Cargo.toml"
         cp "$HERE/known_findings.txt" "$scr/root/"
         if (cd "$scr/sim" && CARGO_NET_OFFLINE=true cargo build --release --offline --quiet 2>"$scr/build.log"); then
@@ -38,10 +39,11 @@ one() {
     rm -rf "$scr" "$wt"
 }
 n=0
-for patch in selftest/mutants/*.patch seeded/*/patch.diff; do
+for patch in selftest/mutants/*.patch selftest/benign/*.patch seeded/*/patch.diff; do
     [ -f "$patch" ] || continue
     case "$patch" in
         seeded/*) name="seeded-$(basename "$(dirname "$patch")")" ;;
+        selftest/benign/*) name="benign-$(basename "$patch" .patch)" ;;
         *) name=$(basename "$patch" .patch) ;;
     esac
     case "$name" in *"$PAT"*) ;; *) continue ;; esac
@@ -56,10 +58,11 @@ OUT=selftest/sensitivity_matrix.txt
 {
 echo "# mutant | meant to break | checks that reported a violation (exit 1) | missed | harness errors (exit 2)"
 rc_all=0
-for patch in selftest/mutants/*.patch seeded/*/patch.diff; do
+for patch in selftest/mutants/*.patch selftest/benign/*.patch seeded/*/patch.diff; do
     [ -f "$patch" ] || continue
     case "$patch" in
         seeded/*) name="seeded-$(basename "$(dirname "$patch")")"; want=$(python3 -c "import json,sys;print(' '.join(json.load(open('$(dirname "$patch")/meta.json'))['breaks']))" 2>/dev/null) ;;
+        selftest/benign/*) name="benign-$(basename "$patch" .patch)"; want="" ;;
         *) name=$(basename "$patch" .patch); want=$(grep '^# breaks:' "$patch" | sed 's/# breaks: //') ;;
     esac
     [ -f "$WORK/res-$name" ] || continue
@@ -70,6 +73,7 @@ for patch in selftest/mutants/*.patch seeded/*/patch.diff; do
         case "$res" in *"$p=2"*) errs="$errs $p" ;; esac
     done
     for w in $want; do case "$caught" in *"$w"*) ;; *) missed="$missed $w" ;; esac; done
+    case "$name" in benign-*) [ -n "$caught" ] && missed=" FALSE-ALARM:$caught" ;; esac
     case "$res" in *FAILED*) errs="$res" ;; esac
     echo "$name | $want |$caught |${missed:- -} |${errs:- -}"
 done
